@@ -29,6 +29,26 @@ CLAIMED = {
           "The dt controller is proved for every refusal oracle and history; the real update is driven with genuine and scheduled refusals and compared bit for bit (dt used) with the model replayed on the same answers.", "§5 C12"),
  "C17": P("Lean 4 theorems over ℝ (Laplacian of constants vanishes at A=0, per-site fixed point for all γ,u,dt, whole-update fixed point, induction over steps) + undriven real runs and dt sequence vs the Lean controller",
           "Stationarity of the uniform state is a theorem for every mesh given only solve(0)=0; undriven real runs on irregular/holed/smoothed meshes stay at the uniform state to 1e-15 and the adaptive step reaches dt_max as the model predicts.", "§5 C17"),
+ "C07": P("Lean 4 theorems over any field (circumcentre equidistant and labelling-independent, kites tile the triangle, dual edges on bisectors, edge geometry) + per-mesh validation of the external mesher + cell areas / dual lengths vs an independently clipped Voronoi diagram",
+          "PARTIAL: the repo's own geometry (circumcentres, kite areas, dual lengths, edge vectors) is proved; the triangulation comes from Triangle/qhull/shapely and is validated on every generated mesh (orientation, tiling area, outlines, Euler relation, terminal lengths); cell areas and dual edge lengths are compared with an independent half-plane construction of the clipped Voronoi diagram on locally Delaunay cells.", "§5 C07"),
+ "C08": P("Lean 4 theorems over any field (all dimensionless solver inputs are functions of SI values only; flux per triangle) + scale factors of the real constructor vs the Lean Units model for 27 unit triples + paired real runs on a shared dimensionless mesh",
+          "Unit independence of Bc2/A0/K0, link exponents, terminal densities and screening weights is proved; the real constructor is compared with the model for every unit triple and real runs in different unit systems agree to 1e-9 on a shared mesh. Known finding: make_mesh itself is not scale invariant (Triangle).", "§5 C08"),
+ "C09": P("Lean 4 theorems (schedule independence / full overwrite of the parallel kernels' output) + fresh-process bit-for-bit comparison across thread counts and output locations",
+          "OTHER/PARTIAL: race-freedom of the modelled prange kernels is machine-checked; bit-reproducibility of numba, SuperLU, Triangle and h5py across processes and thread counts is observed by hashing meshes, every dataset and kernel outputs, not proved.", "§5 C09", cat="other"),
+ "C13": P("Lean 4 theorems over K-modules (exact mismatch identity of the heavy-ball update, exit only below tolerance with the tested state, non-convergence raises, disabled = zero) + numba kernel vs the Lean fold and an independent double sum + stored potential recomputed from stored currents in SI + loop replay",
+          "Loop logic and the identity are proved for any physics/kernel/error functional; the accelerated kernel equals the direct double sum to rounding; on real screened runs the stored potential reproduces the SI sum within 0.6 tol (bound 3 tol, empirical 'modest multiple'); the Lean loop replayed on logged errors matches iteration counts.", "§5 C13"),
+ "C14": P("Lean 4 theorems (decode∘encode = id for layer/polygon/options incl. None-valued fields/mesh full and compressed/device canonical form; parameter round trip in C16) + real to_hdf5/from_hdf5 and pickle round trips compared field by field + key-set correspondence",
+          "Round trips are proved over an abstract HDF5 store with opaque payloads; real devices, meshes, solutions (option covering array incl. every None) and parameters are written, read back, compared by == and field by field and exercised.", "§5 C14"),
+ "C15": P("Lean 4 theorems (fresh name, existing files untouched, cleanup on every exit path, frames truthful and increasing under arbitrary faults, no-fault refinement of the loop model, cancellation returns a solution) + exhaustive fault injection on bounded real runs + model/implementation correspondence of result, name, frames",
+          "Cleanup, truthfulness and naming are proved for every placement of faults in the file-system/handler model; every injection point (update and frame writer, both stages, both kinds) of bounded real runs is exercised with pre-existing files and the aftermath compared with the model.", "§5 C15"),
+ "C16": P("Lean 4 theorems by structural induction over expression trees of any depth (pointwise evaluation with t dispatched to time-dependent operands only, td flag, structural equality, total construction/clearing/pickling, reachability invariant on attribute presence) + exhaustive depth<=2 (62k trees) and sampled depth-3 correspondence with the real overloads",
+          "The expression language is proved for all depths; all trees of depth <= 2 and a dimension-consistent sample of depth 3 are built with the real operators and compared with the Lean model (values bit for bit for + - * /) and with an independent pointwise evaluation; composites are handed to tdgl.solve.", "§5 C16"),
+ "C18": P("Lean 4 theorems (shoelace area under any affine map for any vertex count, rotation/translation/scaling/reversal, orientation, closing; chains of set operations and device membership under the kernel laws) + generated shapes with probe points, alias/mutation checks, Lean area model vs shapely",
+          "The repo's own geometry logic is proved; shapely/matplotlib semantics are a stated assumption validated by sampling probe points away from boundaries.", "§5 C18"),
+ "C19": P("Lean 4 theorems (validate accepts exactly the consistent option sets; balance test thresholds; failing pre-check leaves the file system unchanged and reports the first failure) + every enumerated class exercised on the real constructor/solve with directory listings + validate/currents correspondence on random option sets",
+          "Decision logic of the input validation is proved outright; each class of ill-posed input is instantiated at magnitudes from gross to 1e-6 with and without output path and must raise the documented error leaving no file behind.", "§5 C19"),
+ "C20": P("Lean 4 theorems (linearity of the Biot-Savart and Coulomb kernels for any weights, scalar = z of vector, sum of parts, H<->B round trip, sqeuclidean = euclidean^2) + numba kernels vs Lean folds and an extended-precision SI double sum + assembled fields of real solutions",
+          "Linearity/decomposition/prefactor statements are proved; kernels and Solution methods are compared with an independent SI double sum; the elliptic-integral loop formula is checked numerically against quadrature only (PARTIAL: Mathlib has no complete elliptic integrals).", "§5 C20"),
 }
 PENDING_REASON = "check not yet built in this revision (work in progress; see DESIGN.md §9 order of work)"
 
